@@ -7,8 +7,10 @@ def jobs(tier):
         J.append(Job('init-zero-%d-%d'%(1<<e0,1<<e1),'C18/init_zero.c',defs=['-DE0=%d'%e0,'-DE1=%d'%e1,'-DCH=2'],unwind=17,unwindset=[('ov_ilog',None,34)],object_bits=10,native_link=['-logg'],
             witnesses=['encoder','decoder'],functions=['vorbis_analysis_init','vorbis_synthesis_init','_vds_shared_init','vorbis_block_init','vorbis_dsp_clear'],
             models=['CBMC malloc = arbitrary contents (prior heap junk); DSP constructors stubbed'],bounds='block sizes (%d,%d), <=2 channels, one arbitrary cell'%(1<<e0,1<<e1)))
+    from jobs_lib import other
+    J+=other('C01',tier,lambda j:j.name.startswith('K-bookvec-v2'))
     return J
 from jobs_lib import load
 def extra_checks(tier,repo): return load('C18/static_scan.py').extra_checks(tier,repo)
-CLAIM={'text':'(a) Solver-backed scan of the whole library (all 22 translation units linked into one goto binary): no reachable instruction of any library function assigns a static-lifetime object, so instances with disjoint objects share no mutable location and every interleaving is equivalent to a sequential run (derived, not explored). (b) Bounded model checking with CBMC\'s arbitrary-content malloc: the buffers whose initial contents reach the output (PCM accumulator / analysis buffer, block) are initialised whatever the heap contained.',
+CLAIM={'text':'(a) Solver-backed scan of the whole library (all 22 translation units linked into one goto binary): no reachable instruction of any library function assigns a static-lifetime object, so instances with disjoint objects share no mutable location and every interleaving is equivalent to a sequential run (derived, not explored). (b) Bounded model checking with CBMC\'s arbitrary-content malloc: the buffers whose initial contents reach the output (PCM accumulator / analysis buffer, block) are initialised whatever the heap contained; vorbis_book_decodev_set defines every cell of the (uninitialised, block-local) floor-0 vector, also for a book without used entries (K-bookvec-v2).',
  'note':'Trusted: CBMC goto-program and symbol table as the representation of the library; writes through pointers are not attributed to statics (no library static has its address stored in a heap object - not separately proved); libc/FPU state (errno, rounding mode) outside. (b) covers the init path only; the two-run formulation over parsers/packers (DESIGN section 3 C18) is not built. Concurrency itself is not explored.'}
